@@ -198,6 +198,7 @@ class Contract:
         self.assumes = []
         self.unroll = None
         self.calls = None
+        self.assumed_pre = set()
         self.extern_params = []
         self.external_below = None
 
@@ -406,6 +407,12 @@ class ContractDB:
                 last = c
             elif word == 'external-below':
                 cur.external_below = Clause('external-below', 'external-below', [], rest, path, ln)
+                last = None
+            elif word == 'assumespre':
+                # `assumespre <callee> <label>`: at calls from this function, that precondition of the callee is ASSUMED
+                # (written to the trusted base), not proved - for a fact this function cannot know
+                ws = rest.split()
+                cur.assumed_pre.add((ws[0], ws[1].strip('[]')))
                 last = None
             elif word == 'calls':
                 # the functions outside the module this function may call (closed list)
